@@ -60,6 +60,7 @@ type Exec struct {
 	assertN      int
 	assertSeen   map[string]int
 	curCall      *ssa.CallCommon
+	madeClosure  map[*ssa.Alloc]bool // locals already captured by an executed MakeClosure
 	lastResult   map[string]Val
 }
 
@@ -1032,6 +1033,16 @@ func (ex *Exec) instr(in ssa.Instruction) {
 		binds := make([]Val, len(in.Bindings))
 		for i, b := range in.Bindings {
 			binds[i] = ex.escapeVal(b)
+			if a, ok := b.(*ssa.Alloc); ok {
+				r := ex
+				for r.parent != nil {
+					r = r.parent
+				}
+				if r.madeClosure == nil {
+					r.madeClosure = map[*ssa.Alloc]bool{}
+				}
+				r.madeClosure[a] = true
+			}
 		}
 		ref := ex.allocRef()
 		ex.vals[in] = Val{T: ref, Ty: in.Type(), Fn: fn, Bind: binds}
